@@ -132,10 +132,10 @@ def generate_indexed(family, index, rng, tier):
         ops = []
         for j in range(rng.randint(6, 20)):
             if down:
-                ln = rng.choice([0, 0, 1, 2, 3, 7])
+                ln = rng.choice([0, 0, 1, 2, 3, 7]) if rng.random() < 0.93 else 256 // ratio - 1      # (the longest one: 256 narrow beats)
                 start = rng.randrange(0, 8) * nbm + (rng.choice([0, 0, 1, 2, 3]) * (dw_s // 8)) % nbm
             else:
-                ln = rng.choice([1, 2, 3, 4, 8]) * ratio - 1
+                ln = (rng.choice([1, 2, 3, 4, 8]) if rng.random() < 0.9 else 256 // ratio - rng.choice([0, 0, 1])) * ratio - 1   # (up to 256 beats)
                 start = rng.randrange(0, 6) * (dw_s // 8)
             if ln > 255:
                 continue
